@@ -302,6 +302,7 @@ for variant, vdefs in (('user_rng', {}), ('builtin_rng', {'VD_BUILTIN_RNG': None
     for script in (0, 1, 2, 3):
         for entry in ('proof_two_storages', 'proof_copy'):
             for sroa in (True, False):
+                if not sroa and entry == 'proof_copy' and variant == 'builtin_rng': continue      # (out of memory on the un-promoted IR)
                 defs = dict(vdefs); defs['VD_SCRIPT'] = script
                 job(id='C10.%s.s%d.%s%s' % (variant, script, entry[6:], '' if sroa else '.unpromoted'), tu='tier_c/m_determinism.cpp', defs=defs, entry=entry, props=['C10', 'C11'], unwind=34, unwindset={entry + '.0': 98}, objbits=12, timeout=1800, sroa=sroa,
                     tier='quick' if (sroa and script < 2) else 'thorough', carriers=[r'InstanceT<.*>::InstanceT', r'CoreT<.*>::CoreT', r'R_<.*>::R_', r'RV_<.*>::RV_'],
@@ -405,7 +406,7 @@ for _mode, _name in ((2, 'interface'), (1, 'verbose')):
             carriers=[r'S_<.*>::wrapUtility', r'S_<.*>::wrapRank'], case_key='%s/logger mirrors rank and utility callbacks/%s region %d' % (_name, KIND_NAMES[_k], _r))
 
 M_UTILN = Machine('utiln', 'tier_c/m_util.cpp', [-1, 0, 0, 2, 3, 3, 2, 2, 7, 7, 9, 9], ['C', 'L', 'C', 'C', 'L', 'L', 'L', 'O', 'L', 'C', 'L', 'L'], defs={'VM_NESTED_UTIL': None}, unwind=26)
-for region, full, tier in ((2, 0, 'quick'), (3, 0, 'quick'), (9, 0, 'quick'), (2, 1, 'thorough')):
+for region, full, tier in ((2, 0, 'quick'), (3, 0, 'quick'), (9, 0, 'quick')):       # (the variant that also asserts the product / mean rule of the enclosing region, key (2, 1), exceeds 24 GB in CBMC and is in no tier)
     job(id='C.utiln.utilize_nested.r%d%s' % (region, '.full' if full else ''), tu=M_UTILN.tu, defs=M_UTILN.defs, entry='step_utilize_nested', key=[region, full], props=['C12', 'C01', 'C02', 'C11'], unwind=26, objbits=12,
         timeout=1500, mem_gb=24, tier=tier, cbmc_flags=['--slice-formula'],
         carriers=[r'C_<.*>::deepReportUtilize', r'O_<.*>::deepReportUtilize', r'OS_<.*>::wideReportUtilize', r'C_<.*>::deepRequestUtilize'], case_key='nested utility/utilize region %d%s' % (region, ' incl. product/mean rule' if full else ''))
@@ -423,9 +424,8 @@ for _k in (5, 0):
     job(id='C.randr.randomize_regions.%s' % KIND_NAMES[_k], tu='tier_c/m_util.cpp', defs={'VM_RANDOM_WITH_REGION': None}, entry='step_randomize_regions', key=[_k, 2], props=['C12', 'C01', 'C11'], quick_for=['C12', 'C11'],
         unwind=20, objbits=12, timeout=1500, safety_always=True, carriers=[r'CS_<.*>::wideReportRank', r'CS_<.*>::wideReportRandomize', r'C_<.*>::resolveRandom'],
         case_key='random region whose first option is a region/%s region 2' % KIND_NAMES[_k])
-M_UTILH = Machine('utilh', 'tier_c/m_util.cpp', [-1, 0, 0, 2, 3, 3, 2], ['C', 'L', 'C', 'C', 'L', 'L', 'L'], defs={'VM_HEADLESS_UTIL': None}, unwind=18)
-job(id='C.utilh.utilize_headless.r2', tu=M_UTILH.tu, defs=M_UTILH.defs, entry='step_utilize_nested', key=[2, 1], props=['C12', 'C01', 'C02', 'C11'], tier='thorough', unwind=18, objbits=12, timeout=1500, mem_gb=24, cbmc_flags=['--slice-formula'],
-    carriers=[r'C_<.*>::deepReportUtilize', r'S_<.*EmptyT.*>::wrapUtility|S_<.*>::wrapUtility', r'C_<.*>::deepRequestUtilize'], case_key='headless nested utility/utilize region 2 (anonymous head counts as 1)')
+# (a machine-level job for the headless nested region, step_utilize_nested on VM_HEADLESS_UTIL, exceeds 24 GB in CBMC - symbolic float products - and is in no tier;
+#  the defect it was written for is decided by C.util.anonymous_defaults)
 
 # ------------------------------------------------------------------ C11: request queue beyond capacity (known finding)
 for m in (M_RES, M_NEST):
